@@ -49,7 +49,10 @@ def run_cases(mod, cases):
     impls = [safe_impl(mod, c) for c in cases]
     reqs, spans = [], []
     for c in cases:
-        r = mod.requests(c)
+        try:
+            r = mod.requests(c)
+        except Exception:
+            r = []             # the observed result has a shape no request can be built from: the oracle judges it, the model is not asked
         spans.append((len(reqs), len(reqs) + len(r)))
         reqs.extend(r)
     if reqs:
